@@ -4,12 +4,16 @@
 package gen
 
 import (
+	"bytes"
 	"encoding/base64"
 	"fmt"
 	"math"
 	"os"
 	"path/filepath"
+	"regexp"
+	"sort"
 	"strings"
+	"sync"
 	"sync/atomic"
 	"unicode"
 	"unicode/utf8"
@@ -826,6 +830,109 @@ func LanguagePack() []database.Command {
 	var out []database.Command
 	for _, w := range nlpSingle() {
 		out = append(out, database.Command{Command: w + " --" + w, Description: "about " + w})
+	}
+	return out
+}
+
+// ---- process environment ----
+
+var (
+	envNamesOnce  sync.Once
+	envNames      []string
+	envReferenced []string // the names the tree's own source mentions
+	envNameRe     = regexp.MustCompile(`(?:Getenv|LookupEnv)\(\s*"([A-Za-z_][A-Za-z0-9_]*)"`)
+	envLitRe      = regexp.MustCompile(`"([A-Z][A-Z0-9]*(?:_[A-Z0-9]+)+)"`)
+)
+
+// never varied: they change what the Go runtime, the shell or the harness itself does, or they
+// are the documented way to point wtf at its files (the isolated home sets those)
+var envKeep = map[string]bool{"PATH": true, "HOME": true, "XDG_CONFIG_HOME": true, "APPDATA": true, "USERPROFILE": true, "TMPDIR": true,
+	"GODEBUG": true, "GOTRACEBACK": true, "GOGC": true, "GOMEMLIMIT": true, "GOMAXPROCS": true, "GORACE": true, "GOCOVERDIR": true}
+
+// EnvNames lists the environment variables a process of the code under test might look at: every
+// name the source tree under $VERIF_REPO passes to os.Getenv / os.LookupEnv or holds as an
+// ENV_STYLE string literal (non-test files), plus names that commonly steer platform, locale,
+// terminal and time behaviour. Computed once per process from the tree being checked.
+func EnvNames() []string {
+	envNamesOnce.Do(func() {
+		seen := map[string]bool{}
+		add := func(n string) {
+			if !seen[n] && !envKeep[n] && !strings.HasPrefix(n, "VERIF_") {
+				seen[n] = true
+				envNames = append(envNames, n)
+			}
+		}
+		for _, n := range []string{"WSL_DISTRO_NAME", "WSL_INTEROP", "WTF_PLATFORM", "WTF_DEBUG", "WTF_CONFIG", "WTF_CACHE", "OSTYPE", "OS", "MSYSTEM", "TERM_PROGRAM",
+			"LANG", "LC_ALL", "LC_CTYPE", "LANGUAGE", "TZ", "COLUMNS", "LINES", "CI", "DEBUG", "SHELL", "USER", "EDITOR", "PAGER", "PWD", "HOSTNAME", "TERM", "XDG_DATA_HOME", "XDG_CACHE_HOME"} {
+			add(n)
+		}
+		root := os.Getenv("VERIF_REPO")
+		if root == "" {
+			root = "/repo"
+		}
+		for _, sub := range []string{"internal", "cmd"} {
+			filepath.WalkDir(filepath.Join(root, sub), func(p string, d os.DirEntry, err error) error {
+				if err != nil || d.IsDir() || !strings.HasSuffix(p, ".go") || strings.HasSuffix(p, "_test.go") || strings.HasPrefix(filepath.Base(p), "verif_") {
+					return nil
+				}
+				data, err := os.ReadFile(p)
+				if err != nil {
+					return nil
+				}
+				ref := func(n string) {
+					if !envKeep[n] && !strings.HasPrefix(n, "VERIF_") && !strings.Contains(n, "COLOR") {
+						dup := false
+						for _, o := range envReferenced {
+							dup = dup || o == n
+						}
+						if !dup {
+							envReferenced = append(envReferenced, n)
+						}
+					}
+					add(n)
+				}
+				for _, m := range envNameRe.FindAllSubmatch(data, -1) {
+					ref(string(m[1]))
+				}
+				if bytes.Contains(data, []byte("Getenv(")) || bytes.Contains(data, []byte("LookupEnv(")) {
+					for _, m := range envLitRe.FindAllSubmatch(data, -1) {
+						ref(string(m[1]))
+					}
+				}
+				return nil
+			})
+		}
+		sort.Strings(envNames)
+		sort.Strings(envReferenced)
+	})
+	return envNames
+}
+
+// HostileEnv draws 1-6 settings NAME=value over EnvNames(): values that switch features on, name
+// another platform or locale, are empty, unknown to any table, or unique to this draw.
+func HostileEnv(t *rapid.T, unique string) []string {
+	names := EnvNames()
+	var out []string
+	seen := map[string]bool{}
+	for i := rapid.IntRange(1, 6).Draw(t, "env-settings"); i > 0; i-- {
+		var n string
+		if rapid.IntRange(0, 2).Draw(t, "env-wsl-pair") == 0 && !seen["WSL_DISTRO_NAME"] {
+			// (the two a WSL session always sets together)
+			seen["WSL_DISTRO_NAME"], seen["WSL_INTEROP"] = true, true
+			out = append(out, "WSL_DISTRO_NAME=Ubuntu", "WSL_INTEROP=/run/WSL/8_interop")
+			continue
+		}
+		if len(envReferenced) > 0 && rapid.Bool().Draw(t, "env-referenced-name") {
+			n = rapid.SampledFrom(envReferenced).Draw(t, "env-name-from-source") // a name the source tree itself mentions
+		} else {
+			n = rapid.SampledFrom(names).Draw(t, "env-name")
+		}
+		if seen[n] {
+			continue
+		}
+		seen[n] = true
+		v := rapid.SampledFrom([]string{"", "1", "0", "true", "x", "windows", "linux", "darwin", "macos", "amiga3", "unknown-" + unique, "Ubuntu", "tr_TR.UTF-8", "C", "/nonexistent", "-1", "999999999999", "dumb", "win"}).Draw(t, "env-value")
+		out = append(out, n+"="+v)
 	}
 	return out
 }
